@@ -38,6 +38,7 @@ type site struct {
 	Func  string
 	Hot   bool
 	Write bool
+	Sync  bool // the statement performs a sync / sync/atomic operation
 }
 
 type pkgInfo struct {
@@ -294,6 +295,32 @@ type fileWork struct {
 
 func (fw *fileWork) off(p token.Pos) int { return fset.Position(p).Offset }
 
+// stmtIsSync: the statement itself (not nested blocks) calls into sync or sync/atomic.
+func stmtIsSync(pi *pkgInfo, s ast.Node) bool {
+	found := false
+	shallow(s, func(n ast.Node) bool {
+		if c, ok := n.(*ast.CallExpr); ok {
+			if sel, ok := c.Fun.(*ast.SelectorExpr); ok {
+				if sl := pi.info.Selections[sel]; sl != nil {
+					if fo, ok := sl.Obj().(*types.Func); ok && fo.Pkg() != nil {
+						if p := fo.Pkg().Path(); p == "sync" || p == "sync/atomic" {
+							found = true
+						}
+					}
+				} else if id, ok := sel.X.(*ast.Ident); ok {
+					if pn, ok := pi.info.Uses[id].(*types.PkgName); ok {
+						if p := pn.Imported().Path(); p == "sync" || p == "sync/atomic" {
+							found = true
+						}
+					}
+				}
+			}
+		}
+		return !found
+	})
+	return found
+}
+
 func (fw *fileWork) addSite(pos token.Pos, fn string, hot, write bool) int {
 	p := fset.Position(pos)
 	rel, _ := filepath.Rel(filepath.Dir(fw.pi.dir), p.Filename)
@@ -318,6 +345,9 @@ func (fw *fileWork) instrumentBlock(b *ast.BlockStmt, fn string, hot bool, loopB
 func (fw *fileWork) instrumentList(list []ast.Stmt, fn string, hot bool) {
 	for _, s := range list {
 		id := fw.addSite(s.Pos(), fn, hot, stmtWritesPkgState(fw.pi, s))
+		if stmtIsSync(fw.pi, s) {
+			sites[id].Sync = true
+		}
 		o := fw.off(s.Pos())
 		fw.edits = append(fw.edits, edit{off: o, end: o, text: fmt.Sprintf("verifSimYield(%d);", id), prio: 0})
 	}
@@ -326,6 +356,7 @@ func (fw *fileWork) instrumentList(list []ast.Stmt, fn string, hot bool) {
 // walk descends through a function body, instrumenting statement lists.
 func (fw *fileWork) walk(n ast.Node, fn string, hot bool) {
 	litN := 0
+	stmtExprs := map[*ast.CallExpr]bool{}
 	var visit func(n ast.Node)
 	visit = func(n ast.Node) {
 		ast.Inspect(n, func(x ast.Node) bool {
@@ -349,11 +380,58 @@ func (fw *fileWork) walk(n ast.Node, fn string, hot bool) {
 				}
 			case *ast.CallExpr:
 				fw.rewriteSyncCall(s)
+				fw.wrapAtomicCall(s, fn, stmtExprs)
+			case *ast.ExprStmt:
+				// a call that is the whole statement already has a yield in front of it
+				if c, ok := s.X.(*ast.CallExpr); ok {
+					stmtExprs[c] = true
+				}
 			}
 			return true
 		})
 	}
 	visit(n)
+}
+
+// wrapAtomicCall gives the scheduler a yield point between the atomic
+// operations of one statement: a sync/atomic call that produces a value and is
+// nested inside a larger expression - flag.Store(flag.Load()|bit),
+// if atomic.LoadUint32(&x) == 0 && ... - is wrapped as verifSimAtom(site, call),
+// which yields after the value has been obtained. Without it, a lost update
+// between a Load and the Store that uses it sits inside a single statement and
+// no statement-level schedule can reach it.
+func (fw *fileWork) wrapAtomicCall(c *ast.CallExpr, fn string, whole map[*ast.CallExpr]bool) {
+	if !fw.yields || whole[c] {
+		return
+	}
+	isAtomic := false
+	switch f := c.Fun.(type) {
+	case *ast.SelectorExpr:
+		if s := fw.pi.info.Selections[f]; s != nil {
+			if fo, ok := s.Obj().(*types.Func); ok && fo.Pkg() != nil && fo.Pkg().Path() == "sync/atomic" {
+				isAtomic = true
+			}
+		} else if id, ok := f.X.(*ast.Ident); ok {
+			if pn, ok := fw.pi.info.Uses[id].(*types.PkgName); ok && pn.Imported().Path() == "sync/atomic" {
+				isAtomic = true
+			}
+		}
+	}
+	if !isAtomic {
+		return
+	}
+	tv, ok := fw.pi.info.Types[c]
+	if !ok || tv.Type == nil {
+		return
+	}
+	if t, isTuple := tv.Type.(*types.Tuple); isTuple || tv.IsVoid() {
+		_ = t
+		return
+	}
+	id := fw.addSite(c.Pos(), fn, true, false)
+	sites[id].Sync = true
+	fw.edits = append(fw.edits, edit{off: fw.off(c.Pos()), end: fw.off(c.Pos()), text: fmt.Sprintf("verifSimAtom(%d, ", id), prio: 2})
+	fw.edits = append(fw.edits, edit{off: fw.off(c.End()), end: fw.off(c.End()), text: ")", prio: -1})
 }
 
 // subWalker instruments one function body (FuncDecl or FuncLit).
@@ -671,6 +749,7 @@ type VerifSite struct {
 	Func  string
 	Hot   bool
 	Write bool
+	Sync  bool
 }
 
 //go:norace
@@ -678,6 +757,12 @@ func verifSimYield(site int) {
 	if h := VerifSimYield; h != nil {
 		h(site)
 	}
+}
+
+// verifSimAtom yields after an atomic operation has produced its value.
+func verifSimAtom[T any](site int, v T) T {
+	verifSimYield(site)
+	return v
 }
 
 func verifSimOnceDo(o *sync.Once, f func()) {
@@ -739,7 +824,7 @@ func verifSimRWRUnlock(m *sync.RWMutex) {
 	sb.WriteString("}\n\n")
 	sb.WriteString("// VerifSites maps site ids to source positions.\nvar VerifSites = []VerifSite{\n")
 	for _, s := range sites {
-		fmt.Fprintf(&sb, "\t{%q, %d, %q, %v, %v},\n", s.File, s.Line, s.Func, s.Hot, s.Write)
+		fmt.Fprintf(&sb, "\t{%q, %d, %q, %v, %v, %v},\n", s.File, s.Line, s.Func, s.Hot, s.Write, s.Sync)
 	}
 	sb.WriteString("}\n\n")
 	sb.WriteString(genSnapshot(pi))
@@ -754,6 +839,12 @@ func verifSimYield(site int) {
 	if h := field.VerifSimYield; h != nil {
 		h(site)
 	}
+}
+
+// verifSimAtom yields after an atomic operation has produced its value.
+func verifSimAtom[T any](site int, v T) T {
+	verifSimYield(site)
+	return v
 }
 
 func verifSimOnceDo(o *sync.Once, f func()) {
